@@ -4,6 +4,9 @@
 //! directory, through `Runner { mode, checkpoint_config, .. }.run_collect`.
 //!   seeds = null (the directory does not exist) | [[name_spec, {"bytes":[..]}], ..]
 //!           name_spec = ["raw", name] | ["pid", r, suffix]  ("checkpoint_<pipeline id of run r>_<suffix>")
+//!           or [["state", r, ts], [idx, parts, total, node_type, exec_mode, percent]]: a VALID checkpoint
+//!           of run r's pipeline id (what a run killed right after a save leaves), written with the
+//!           public CheckpointManager::save_checkpoint
 //!   run   = [src, pre|null, post, crash, partitions|null, cfg|null, damage|null]
 //!           program = pre ++ [an identity `map` whose closure panics while `crash` is set] ++ post
 //!           (pre = null: no injected map, program = post); steps / sources as in Engine/Decode.v
@@ -26,7 +29,9 @@
 //! outcome ["abort"], no answer within 30 s is ["hang"].
 use ibv::engine::*;
 use ibv::{Emitter, SplitMix64, Tier, drive};
-use ironbeam::checkpoint::{CheckpointConfig, CheckpointManager, CheckpointPolicy, compute_checksum};
+use ironbeam::checkpoint::{
+    CheckpointConfig, CheckpointManager, CheckpointMetadata, CheckpointPolicy, CheckpointState, compute_checksum,
+};
 use ironbeam::planner::build_plan;
 use ironbeam::{ExecMode, PCollection, Pipeline, Runner};
 use serde_json::{Value, json};
@@ -69,6 +74,18 @@ struct RunSpec {
 enum NameSpec {
     Raw(String),
     Pid(usize, String),
+    /// a VALID checkpoint of run r's pipeline id with this timestamp, written through the public
+    /// CheckpointManager::save_checkpoint; the content bytes of the seed are replaced by the state
+    State(usize, u64, StateSpec),
+}
+#[derive(Clone, Debug)]
+struct StateSpec {
+    idx: usize,
+    parts: usize,
+    total: usize,
+    ntype: String,
+    mode: String,
+    pct: u8,
 }
 type Seeds = Option<Vec<(NameSpec, Vec<u8>)>>;
 
@@ -208,6 +225,9 @@ fn seeds_json(s: &Seeds) -> Value {
                     let n = match n {
                         NameSpec::Raw(s) => json!(["raw", s]),
                         NameSpec::Pid(r, s) => json!(["pid", r, s]),
+                        NameSpec::State(r, ts, st) => {
+                            return json!([["state", r, ts], [st.idx, st.parts, st.total, st.ntype, st.mode, st.pct]]);
+                        }
                     };
                     json!([n, bytes_json(b)])
                 })
@@ -235,6 +255,24 @@ fn parse_seeds(j: &Value, nruns: usize) -> R<Seeds> {
                 let r = n[1].as_u64().filter(|r| (*r as usize) < nruns).ok_or("seed run")? as usize;
                 let s = n[2].as_str().filter(|s| name_text_ok(s)).ok_or("suffix")?;
                 NameSpec::Pid(r, s.to_string())
+            }
+            (Some("state"), 3) => {
+                let r = n[1].as_u64().filter(|r| (*r as usize) < nruns).ok_or("seed run")? as usize;
+                // a 13-digit timestamp, like the ones a run writes
+                let ts = n[2].as_u64().filter(|t| (1_000_000_000_000..10_000_000_000_000).contains(t)).ok_or("ts")?;
+                let f = e[1].as_array().filter(|f| f.len() == 6).ok_or("state fields")?;
+                let num = |v: &Value| v.as_u64().filter(|x| *x < 1 << 40).map(|x| x as usize).ok_or("field".to_string());
+                let text = |v: &Value| v.as_str().filter(|s| s.is_empty() || name_text_ok(s)).map(String::from).ok_or("text".to_string());
+                let st = StateSpec {
+                    idx: num(&f[0])?,
+                    parts: num(&f[1])?,
+                    total: num(&f[2])?,
+                    ntype: text(&f[3])?,
+                    mode: text(&f[4])?,
+                    pct: f[5].as_u64().filter(|x| *x < 256).ok_or("pct")? as u8,
+                };
+                out.push((NameSpec::State(r, ts, st), vec![]));
+                continue;
             }
             _ => return Err("seed spec".into()),
         };
@@ -479,6 +517,33 @@ fn run_case(input: &Value) -> Value {
                 let name = match spec {
                     NameSpec::Raw(s) => s.clone(),
                     NameSpec::Pid(r, suffix) => format!("checkpoint_{}_{}", pids[*r], suffix),
+                    NameSpec::State(r, ts, st) => {
+                        let pid = pids[*r].clone();
+                        let meta = format!("{pid}:{}:{ts}:{}", st.idx, st.parts);
+                        let state = CheckpointState {
+                            pipeline_id: pid,
+                            completed_node_index: st.idx,
+                            timestamp: *ts,
+                            partition_count: st.parts,
+                            checksum: compute_checksum(meta.as_bytes()),
+                            exec_mode: st.mode.clone(),
+                            metadata: CheckpointMetadata {
+                                total_nodes: st.total,
+                                last_node_type: st.ntype.clone(),
+                                progress_percent: st.pct,
+                            },
+                        };
+                        let mut mgr = CheckpointManager::new(CheckpointConfig {
+                            enabled: true,
+                            directory: ck.clone(),
+                            policy: CheckpointPolicy::AfterEveryBarrier,
+                            auto_recover: false,
+                            max_checkpoints: None,
+                        })
+                        .map_err(|e| e.to_string())?;
+                        mgr.save_checkpoint(&state).map_err(|e| e.to_string())?;
+                        continue;
+                    }
                 };
                 std::fs::write(ck.join(name), content).map_err(|e| e.to_string())?;
             }
@@ -725,7 +790,9 @@ fn cfg(policy: CheckpointPolicy, max: Option<usize>, auto: bool) -> Option<Cfg> 
 
 fn emit(em: &mut Emitter, seeds: &Seeds, runs: &[RunSpec], tags: &[&str]) {
     let enabled = runs.iter().filter(|r| r.cfg.as_ref().is_some_and(|c| c.enabled)).count();
-    let pid_seeds = seeds.as_ref().is_some_and(|s| s.iter().any(|(n, _)| matches!(n, NameSpec::Pid(..))));
+    let pid_seeds = seeds
+        .as_ref()
+        .is_some_and(|s| s.iter().any(|(n, _)| matches!(n, NameSpec::Pid(..) | NameSpec::State(..))));
     let nontrivial = enabled >= 1 && (runs.len() >= 2 || pid_seeds);
     let mut t: Vec<String> = tags.iter().map(|s| s.to_string()).collect();
     let last = runs.last().unwrap();
@@ -906,6 +973,42 @@ fn generate(seed: u64, tier: Tier, em: &mut Emitter) {
             let first = mk_run(src, steps, Some(steps.len()), true, Mode::Seq, c.clone(), None);
             let second = mk_run(src, steps, Some(steps.len()), false, Mode::Seq, c, None);
             emit(em, &seeds, &[first, second], &["seeded-future"]);
+        }
+    }
+
+    // 3b. VALID checkpoints of this pipeline claiming any progress (a run killed right after a save,
+    //     e.g. after the last node's checkpoint and before the clean-up): a recovering run must still
+    //     compute everything
+    for (pi, (src, steps)) in progs.iter().enumerate() {
+        for (mi, mode) in [Mode::Seq, Mode::Par(2)].iter().enumerate() {
+            let total = 1 + steps.len(); // any claim will do; the real plan length is among them
+            for (vi, (idx, tot, pct)) in [(0usize, total, 0u8), (total - 1, total, 100), (total, total, 255),
+                                          (1 << 32, 1, 7), (2, 3, 66), (3, 4, 75), (4, 5, 80), (5, 6, 83), (0, 1, 0)]
+                .iter()
+                .enumerate()
+            {
+                if quick && (pi + mi + vi) % 3 != 0 {
+                    continue;
+                }
+                let st = |ts: u64, idx: usize| {
+                    (NameSpec::State(0, ts, StateSpec {
+                        idx,
+                        parts: if mi == 0 { 1 } else { 2 },
+                        total: *tot,
+                        ntype: "Stateless".into(),
+                        mode: if mi == 0 { "sequential".into() } else { "parallel:2".into() },
+                        pct: *pct,
+                    }), vec![])
+                };
+                // an old one, the claimed one, and (every other case) one "from the future"
+                let mut seeds = vec![st(1_600_000_000_000, 0), st(1_600_000_000_001 + vi as u64, *idx)];
+                if vi % 2 == 1 {
+                    seeds.push(st(9_999_999_999_990 + vi as u64, *idx));
+                }
+                seeds.push((NameSpec::Raw("notes.tmp".into()), vec![1]));
+                let c = cfg(pols[(pi + vi) % pols.len()], MAXES[(vi + mi) % 4], true);
+                emit(em, &Some(seeds), &[mk_run(src, steps, None, false, *mode, c, None)], &["valid-state"]);
+            }
         }
     }
 
